@@ -96,4 +96,4 @@ def run(ctx):
     except ZeroDivisionError:
         ctx.note("empty-record-zerodiv")
     for _ in range(ctx.budget(1500, 60000)):
-        check_case(ctx, gen_case(ctx.rng))
+        ctx.guard(check_case, gen_case(ctx.rng))
